@@ -20,7 +20,13 @@ pub struct ValidStream {
 /// A valid stream from the foreign encoder (70 %) or from the crate's own compressor (30 %).
 pub fn valid_stream(rng: &mut Rng, zlib: bool, target: usize, max_dist: usize, st_feat: Option<&mut Vec<&'static str>>) -> ValidStream {
     if rng.chance(7, 10) || max_dist < 32768 {
-        let cfg = GenCfg { zlib, target, spec: Spec::None, max_dist };
+        // 6 %: "window edge" family (first part produces exactly P bytes, next token sits on the edge)
+        let edge = if max_dist >= 32768 && rng.chance(6, 100) {
+            rng.pick(&[32766usize, 32767, 32768, 32769, 65535, 65536, 65537, 98304, 255, 256, 257, 1023, 1024, 1025, 4095, 4096, 4097])
+        } else {
+            0
+        };
+        let cfg = GenCfg { zlib, target: if edge > 0 { target.min(3000) } else { target }, spec: Spec::None, max_dist, edge };
         let s = foreign::generate(rng, &cfg);
         let v = refinf::inflate(&s.bytes, &Opts::flat(zlib));
         if v.verdict != Verdict::Valid || v.out != s.plain || v.consumed != s.enc_len {
@@ -266,7 +272,15 @@ pub fn gen_c04(rng: &mut Rng, _i: u64, tier: Tier) -> Script {
         if spec.is_zlib() && !zlib {
             spec = Spec::Btype3;
         }
-        let cfg = GenCfg { zlib, target, spec, max_dist: 32768 };
+        let mut edge = 0usize;
+        if rng.chance(1, 8) {
+            // the violation sits right at the window edge (e.g. distance 32768 at output position 32767)
+            edge = rng.pick(&[32767usize, 32766, 32760, 32768, 255, 4095]);
+            if rng.chance(2, 3) {
+                spec = Spec::DistBeforeStart;
+            }
+        }
+        let cfg = GenCfg { zlib, target: if edge > 0 { target.min(1500) } else { target }, spec, max_dist: 32768, edge };
         let st = foreign::generate(rng, &cfg);
         s.set("spec", spec as i64 + 1);
         stream = st.bytes;
@@ -559,6 +573,8 @@ pub fn gen_c08(rng: &mut Rng, _i: u64, _tier: Tier) -> Script {
     }
     s.set("canary", 1);
     s.set("entry", 0);
+    let sweep = rng.chance(1, 6);
+    let target = if sweep { rng.range(0, 500) } else { target };
     let (stream, vs) = if rng.chance(8, 10) {
         let vs = valid_stream(rng, zlib, target, 32768, None);
         (vs.bytes.clone(), Some(vs))
@@ -590,6 +606,18 @@ pub fn gen_c08(rng: &mut Rng, _i: u64, _tier: Tier) -> Script {
         }
     }
     s.ops = ops;
+    if sweep && stream.len() <= 700 {
+        // every first-call budget, or a constant per-call budget, with the canary oracle on
+        s.ops.clear();
+        if rng.chance(1, 2) {
+            s.set("family", 3);
+            let pl = vs.as_ref().map(|v| v.plain_len).unwrap_or(500);
+            s.set("sweep_step", (pl as i64 / 500).max(1));
+        } else {
+            s.set("family", 5);
+            s.set("sweep_budget", rng.pick(&[1i64, 2, 3, 4, 5, 6, 7, 9, 63, 137, 257, 258, 259]));
+        }
+    }
     s.set("hasmore", rng.pick(&[0i64, 0, 0, 1]));
     s.set_blob("stream", stream);
     s
@@ -607,7 +635,7 @@ pub fn gen_c09_dec(rng: &mut Rng, i: u64, tier: Tier) -> Script {
     if i < sweeps {
         // deterministic family: all 65 536 headers x {flat, ring 2^8 .. 2^15}
         let mode_ix = i % 9;
-        let cfg = GenCfg { zlib: true, target: rng.range(1, 120), spec: Spec::None, max_dist: 200 };
+        let cfg = GenCfg { zlib: true, target: rng.range(1, 120), spec: Spec::None, max_dist: 200, edge: 0 };
         let st = foreign::generate(rng, &cfg);
         s.set("entry", 0);
         s.set("family", 4);
